@@ -5,6 +5,7 @@ from hypothesis import strategies as st
 from vlib import strat as S, oracles as O
 
 ID = "C03"
+SWITCH_OFF = 6        # every 6th case runs with xfab.CHECKS switched off (results must not depend on it)
 TARGETED = True     # thorough tier uses hypothesis.target on the residual/tolerance ratios
 RULE = ("Hypothesis: (a) constructors on all real angles (floats in [-1e3,1e3], multiples of pi/2 +- ulps) with the "
         "input checks off for out-of-range Euler angles and on for in-range ones, Rodrigues vectors |r| 1e-8..1e3; "
